@@ -76,11 +76,14 @@ pub fn verify<T: AsRef<[u8]>>(
         #[allow(clippy::arithmetic_side_effects)] // path_length_from_key checks
         let height = parent + 1;
 
-        let subtree_size = 1u64 << height;
+        // A subtree of 2^64 leaves or more cannot fit below `num_leaves`.
+        let Some(subtree_size) = 1u64.checked_shl(height.try_into().unwrap_or(u32::MAX)) else {
+            break
+        };
         #[allow(clippy::arithmetic_side_effects)] // floor(a / b) * b <= a
         let subtree_start_index = proof_index / subtree_size * subtree_size;
         #[allow(clippy::arithmetic_side_effects)]
-        let subtree_end_index = subtree_start_index + subtree_size - 1;
+        let subtree_end_index = subtree_start_index + (subtree_size - 1);
 
         if subtree_end_index >= num_leaves {
             break
